@@ -64,6 +64,15 @@ def shards(tier: str) -> List[Any]:
         result.append(("shapes", index, 12))
     for index in range(8):
         result.append(("regex", tier, index, 8))
+    # the constraint models of C15 (length / pattern / constant-set invariants on a
+    # class, its parent and its constrained primitives): input of the schema generators
+    families = ["sets", "patterns", "unrecognised", "len-primitives"]
+    if tier == "thorough":
+        families += ["len-parent-child", "len-pairs"]
+    for family in families:
+        slices = 16 if family.startswith("len-p") and family != "len-primitives" else 4
+        for index in range(slices):
+            result.append(("constraints", family, index, slices))
     return result
 
 
@@ -75,6 +84,14 @@ def cases_of_shard(shard: Any) -> Iterator[Tuple[Any, str, str]]:
         _, seed, menu, index, slices = shard
         for descriptor, text in gen_dev.mutants_of_shard(seed, menu, index, slices):
             yield {"seed": seed, "deviation": descriptor}, seed, text
+    elif shard[0] == "constraints":
+        from verif.checks import c15
+
+        _, family, index, slices = shard
+        arg = {"len-primitives": False, "len-parent-child": "str", "len-pairs": "str"}.get(family)
+        for number, case in enumerate(c15.cases_of_family(family, arg)):
+            if number % slices == index:
+                yield {"constraints": case["family"], "spec": case["spec"]}, "@Parent", c15.render_model(case["spec"])
     elif shard[0] == "shapes":
         _, index, slices = shard
         for number, (info, text) in enumerate(gen_mm.shape_models()):
